@@ -15,7 +15,9 @@ RULE = (
     "vectors in [-3,3]^3 \\ 0 with d in [-4,4] are enumerated: 342*9 = 3078, plus generated ones; all 1330 normal "
     "directions in [-5,5]^3 \\ 0 are enumerated in point-normal form), three points, "
     "point + two vectors - and lines given as (p,q), (p,q-p), (position vector, direction), over lattice poses "
-    "with every zero pattern and sign of the normal/direction. For each: general_form / point_normal / "
+    "with every zero pattern and sign of the normal/direction; planes through three far-apart quarter-lattice points "
+    "near the top of the coordinate range (long edges, one small normal component); lines through the origin written "
+    "with support vector k * direction. For each: general_form / point_normal / "
     "parametric round trips must == the original and contain three exact non-collinear points of it; "
     "parametric vectors independent and orthogonal to the normal (1e-9); membership of exactly constructed "
     "on-plane points (True) and points displaced along the normal by >= 1/64 (False); -P has the negated "
